@@ -151,7 +151,7 @@ def worker(k):
         t = time.time()
         rc, o = sh("cargo test --offline --lib 2>&1 | tail -5", cwd=repo, timeout=900)
         if "test result: ok" not in o or "117 passed" not in o:
-            res["status"] = "killed-by-suite" if "test result" in o or "error" in o else "build-or-timeout"
+            res["status"] = "killed-by-suite" if "test result" in o else ("does-not-compile" if "error" in o else "build-or-timeout")
         else:
             rc2, o2 = sh("cargo test --offline --doc 2>&1 | tail -3", cwd=repo, timeout=900)
             if "test result: ok" not in o2:
